@@ -13,6 +13,27 @@ CHECKS = {
  "C02": ("exploration", "differential monitor against an independent codec written from the spec files; exhaustive 2^16 header table",
   "The library's bytes for every generated frame are parsed by an independent strict decoder written from /repo/specs, and bytes produced by an independent encoder are fed to the library; all 65536 (version byte, opcode) headers are tried and must be accepted iff the specs define them. Catches symmetric deviations a round trip cannot see.",
   "Trusted base: my reading of the six spec files (internal/ref), quoted next to each feature gate. " + TB, "DESIGN.md §4 C02"),
+ "C03": ("exploration", "runtime length monitors at frame, message, notation and stream level",
+  "Four monitors over the real encoders/decoders: declared vs emitted body length for every generated frame and compression (incl. tracing requested on requests); EncodedLength vs bytes written for every message codec; every LengthOf*/Write* notation pair by value class (all 65 vint magnitude classes); PRNG streams of 1..16 back-to-back frames walked with DecodeFrame, DecodeRawFrame and DecodeHeader+DiscardBody through a counting reader.",
+  "Frames come from the shared generator; stream sequences and vint fill-ins are sampled. " + TB, "DESIGN.md §4 C03"),
+ "C05": ("exploration", "differential monitor across the seven partial/raw/full codec paths + re-encode fixpoint on mutated wire inputs",
+  "The same bytes (plus sentinel bytes) go through DecodeFrame, DecodeRawFrame+Convert, DecodeHeader+DecodeBody/DecodeRawBody/DiscardBody (seekable and not), ConvertToRawFrame+EncodeRawFrame and EncodeHeader+EncodeBody; all results must agree and consume exactly header+declared length. Mutated wire inputs (flags byte and body bytes) that still decode must re-encode to a fixpoint.",
+  "Mutants whose length fields were damaged are discarded by an allocation-free structural pre-parse (absurd lengths belong to C04); an encode refusal of a decoded mutant is counted, not judged. " + TB, "DESIGN.md §4 C05"),
+ "C06": ("exploration", "segment round trip + independent strict parser of the v5 framing layout (own CRC-24/CRC-32/LZ4 implementations)",
+  "Every boundary length (thorough: every length 0..131071) x flag x {plain, LZ4} x content classes is encoded by the library, parsed bit-exactly by an independent strict parser (header packing, padding, CRC-24, CRC-32, LZ4 block validity, fallback form) and decoded again; segments built by the independent writer (incl. 250:1 blocks and 64 KiB-period content) must decode; lengths above 131071 must be refused.",
+  "internal/segref is written from the spec text and Cassandra's CRC parameters and pinned by external test vectors; the not-compressed signal is uncompressed-length = 0 (what Cassandra and the library do; the v5 spec sentence says 'compressed length', see DESIGN.md). " + TB, "DESIGN.md §4 C06"),
+ "C07": ("fault_enumeration", "exhaustive/ sampled bit-error injection into valid segments; DecodeSegment must reject",
+  "All error patterns of weight 1..5 (thorough: 1..7, 7.9e8 patterns) over the 48/64 header+CRC-24 bits, and single flips, pairs and bursts up to 32 bits over payload+CRC-32 for 8 size classes, are applied to library-encoded segments; any accepted corrupted segment is a violation. A CRC-24 affinity monitor over all 2^24 three-byte headers lets a few base headers speak for all.",
+  "The 131071-byte class is thinned in the quick tier; bursts are numbered LSB-first (the reflected CRC's transmission order). " + TB, "DESIGN.md §4 C07"),
+ "C08": ("exploration", "compress/decompress round trip monitor with independent LZ4 and Snappy decoders",
+  "Sizes 0..4 MiB (thorough 16 MiB) x 10 content classes (ratios up to 254:1, 64 KiB-period content) x {LZ4 raw, LZ4 length-prefixed, Snappy} through buffers and plain readers: the round trip must return the input, the compressed form must expand to the input under independent decoders, and compressed frames/segments must decode to the same content as uncompressed ones.",
+  "Independent decoders in internal/segref. " + TB, "DESIGN.md §4 C08"),
+ "C09": ("exploration", "invariant monitors over exhaustive/PRNG sequential histories + porcupine linearizability of concurrent histories under the race detector",
+  "Through the export shim: all histories to depth 5 (N<=2) / 4 (N=3) and sampled deeper, 1e4 PRNG histories up to N=32767, with invariants I1-I6 (range, uniqueness, refusal at N, duplicate refusal, full recycling, pool conservation); 2000 concurrent histories with log-hook delay injection checked by porcupine against a 10-line id-pool specification; a raw TCP peer asserting uniqueness of unanswered ids for v2/v4.",
+  "Concurrent interleavings are sampled (distinct event-order signatures reported); race-detector reports are evidence only. Hook: client/verif_hooks.go. " + TB, "DESIGN.md §4 C09"),
+ "C10": ("exploration", "offline checker over a delivery log with unique ids (exactly-once, right recipient, page order, events)",
+  "Every request/response/event carries a unique id; the checker compares what the emitter put on the wire with what each request's channel, the event channel and handlers received: all k! answer orders for k<=6, PRNG orders up to 1024 outstanding, multi-page interleavings, spurious ids; socket sessions for all versions and compressions incl. v5 segments with several envelopes per segment and split envelopes, concurrent senders.",
+  "Timing-free by construction (barrier events, judge drains channels itself); late duplicates for recycled ids are counted, not judged. " + TB, "DESIGN.md §4 C10"),
  "C13": ("exploration", "runtime monitor with an arbitrary-precision (math/big) judge over all (CQL numeric type, Go type) pairs",
   "Every (CQL numeric type, Go numeric/string type) pair in both directions is driven with every type boundary +-1 and PRNG values of all magnitudes through the real codecs; a result is accepted only if it is an error or exactly the mathematical value.",
   "Reference (de)serializers of the fixed-width/varint/vint formats written from spec section 5/6 in cmd/c13; value pools are sampled, pairs are complete. " + TB, "DESIGN.md §4 C13"),
@@ -22,6 +43,9 @@ CHECKS = {
  "C17": ("exploration", "runtime heap-aliasing monitor: reflective disjointness of reachable mutable memory + mutate-and-observe",
   "Every type with a deep-copy operation (enumerated from source at run time and cross-checked with a static registry) is populated in every field, copied through every copy method, and the copy is checked for equality, for disjointness of all reachable mutable memory, and by mutating every reachable location and re-dumping the other side. A canary (identity and shallow copies) must be flagged on every run.",
   "Populated instances are PRNG-drawn; a type missing from the registry is reported inconclusive. " + TB, "DESIGN.md §4 C17"),
+ "C18": ("exploration", "Go race detector + concurrent-vs-sequential result comparison on shared codec instances",
+  "53 shared codec/compressor instances are hammered by 4/16/64 goroutines with private inputs in a normal and a -race child; every concurrent result must equal the sequential one and no race report may involve a library codec frame. Overlap actually achieved is measured (XADD counter) and a deliberate canary race must be reported by the detector.",
+  "Interleavings are sampled by stress; the -race budget is ~1.7e5 calls in quick. " + TB, "DESIGN.md §4 C18"),
  "C19": ("exploration", "runtime enumeration of constants parsed from source vs the library's predicates over whole code domains",
   "Constants are parsed from primitive/constants.go at run time; declared values must be accepted and named, every undeclared value of the 8/16-bit domains (exhaustively) and of the 32-bit domains (stratified in quick, all 2^32 for IsValid in thorough) must be rejected; opcode classification, codec arms and a capability table transcribed from the specs are compared for every (version, argument) pair.",
   "Capability table transcribed by hand from the spec texts (6 ambiguous cells unjudged). Check* functions are not swept exhaustively over 2^32 (too slow), IsValid is. " + TB, "DESIGN.md §4 C19"),
